@@ -3,7 +3,7 @@
 import json, os, sys
 sys.path.insert(0, os.path.dirname(os.path.abspath(__file__)))
 from manifest_data import CHECKS, NOT_APPLICABLE
-TECH = 'contract-based deductive verification: contracts spliced into C extracted mechanically from the clang AST of /repo each run; CBMC 6.11 (SMT z3 5.1 / SAT) discharges every obligation'
+TECH = 'contract-based deductive verification: contracts spliced into C extracted mechanically from the clang AST of /repo each run; CBMC 6.11 (SMT z3 5.1 / SAT) discharges every obligation; a refuted obligation is replayed on the real code by a native driver; only for a unit the verifier cannot decide (extraction break, timeout) a bounded native search of the real code against the same contract stands in (labelled bounded, never counted as proof)'
 m = {
     'version': 1,
     'setup_cmd': 'true',
